@@ -325,6 +325,20 @@ Example C15_text_example :
   match prepare 40 "/**[has_child(a)][parent(2)].b[c=~/d/]" with Ok p => collector_free_kw p | _ => false end = true.
 Proof. vm_compute. reflexivity. Qed.
 
+(* Finding F31 (known, new in round parserfix): the keyword fragment's demand
+   [kw_params_ok] is needed -- the parser accepts "[max(\')]", the escaped
+   parse stores the parameter text "'" (the back-slash is stripped), and
+   SearchKeywordTerms.parameters raises ValueError on it when the segment is
+   evaluated.  The path is inside [in_fragment] (types and attributes agree)
+   and outside [in_fragment_kw]. *)
+Theorem C15_kw_params_refuted :
+  match prepare 12 "[max(\')]" with
+  | Ok p => in_fragment p = true /\ in_fragment_kw p = false /\ collector_free p = true /\
+            snd (ek_required lit0 re0 nstr0 vstr0 p doc_ab) = Err (PyCrash ValueError)
+  | _ => False
+  end.
+Proof. vm_compute. repeat split; reflexivity. Qed.
+
 Example C15_kw_params_not_a_parser_guarantee :
   parse Auto true "[max(\')]" = Ok [(Some TKeywordSearch, AKeyword false KMax "'")] /\ kw_params_ok "'" = false.
 Proof. vm_compute. split; reflexivity. Qed.
